@@ -285,12 +285,13 @@ def enc_content(rec) -> str:
     parts = T.lst(f'(mkPart {T.bytes_(h)} {T.boolean(t)} {T.bytes_(b)})' for h, t, b in rec['parts'])
     headers = T.lst(T.pair(T.bytes_(n), T.codepoints(v)) for n, v in rec['headers'])
     sd = 'None' if rec['sdate'] is None else f'(Some {enc_date(rec["sdate"])})'
-    return (f'(mkContent {T.N(rec["size"])} {enc_date(rec["idate"])} {sd} {headers} {parts} '
+    rd = 'None' if rec['rawdate'] is None else f'(Some {T.codepoints(rec["rawdate"])})'
+    return (f'(mkContent {T.N(rec["size"])} {enc_date(rec["idate"])} {rd} {sd} {headers} {parts} '
             f'{T.bytes_(rec["emailid"])} {T.bytes_(rec["threadid"])})')
 
 
 def content_key(rec):
-    return (rec['size'], rec['idate'], rec['sdate'], tuple(rec['headers']), tuple(rec['parts']),
+    return (rec['size'], rec['idate'], rec['rawdate'], rec['sdate'], tuple(rec['headers']), tuple(rec['parts']),
             rec['emailid'], rec['threadid'])
 
 
@@ -308,8 +309,9 @@ def enc_msg(rec) -> str:
     parts = T.lst(f'(mkPart {T.bytes_(h)} {T.boolean(t)} {T.bytes_(b)})' for h, t, b in rec['parts'])
     headers = T.lst(T.pair(T.bytes_(n), T.codepoints(v)) for n, v in rec['headers'])
     sd = 'None' if rec['sdate'] is None else f'(Some {enc_date(rec["sdate"])})'
+    rd = 'None' if rec['rawdate'] is None else f'(Some {T.codepoints(rec["rawdate"])})'
     return (f'(mkMsg {T.N(rec["uid"])} {T.N(rec["seq"])} {T.lst(T.bytes_(f) for f in rec["flags"])} '
-            f'{T.N(rec["size"])} {enc_date(rec["idate"])} {sd} {headers} {parts} '
+            f'{T.N(rec["size"])} {enc_date(rec["idate"])} {rd} {sd} {headers} {parts} '
             f'{T.bytes_(rec["emailid"])} {T.bytes_(rec["threadid"])})')
 
 
@@ -383,7 +385,8 @@ def gen_message(rng) -> bytes:
         if ' ' in v and rng.random() < 0.2:        # fold at a space
             i = rng.choice([j for j, ch in enumerate(v) if ch == ' '])
             v = v[:i] + '\r\n' + v[i:]
-        sep = ': ' if rng.random() < 0.9 else ':'
+        sep = ': ' if rng.random() < 0.9 else ':'     # (no white space before the colon: stdlib
+        #                                               email, the monitor's parser, would end the header there)
         lines.append((_name_case(rng, name) + sep + v).encode('utf-8'))
 
     if rng.random() < 0.9:
@@ -519,11 +522,12 @@ class KeyGen:
         self.uids = [r['uid'] for r in view]
         self.sizes = [r['size'] for r in view] or [100]
         self.hvals = [v for r in view for _n, v in r['headers']]
-        self.hnames = sorted({n.decode('latin-1') for r in view for n, _v in r['headers']}) or ['subject']
+        self.hnames = sorted({n.strip().lower().decode('latin-1') for r in view
+                              for n, _v in r['headers']}) or ['subject']
         self.byname: dict[str, list[str]] = {}
         for r in view:
             for n, v in r['headers']:
-                self.byname.setdefault(n.decode('latin-1'), []).append(v)
+                self.byname.setdefault(n.strip().lower().decode('latin-1'), []).append(v)
         self.texts = []
         for r in view:
             for h, _t, b in r['parts']:
@@ -715,14 +719,33 @@ def oracle_record(raw_rec: dict) -> dict:
         # the code treats as _NoContent: no headers, no envelope, no parts, size 0
         return {'uid': raw_rec['uid'], 'seq': raw_rec['seq'], 'flags': list(raw_rec['flags']),
                 'size': raw_rec['size'], 'idate': idate_of(raw_rec['internaldate']), 'sdate': None,
+                'rawdate': None,
                 'headers': [], 'parts': [], 'emailid': raw_rec.get('emailid', b''),
                 'threadid': raw_rec.get('threadid', b''), 'reparsed_len': 0}
     content = MessageContent.parse(raw_rec['raw'])
     parsed = content.header.parsed
+    from email.policy import SMTP
+    from pymap.mime.parsed import ParsedHeaders
+    data = raw_rec['raw']
     headers = []
-    for name in parsed:
-        for v in parsed[name]:
-            headers.append((bytes(name), str(v)))
+    rawdate = None
+    check: dict = {}
+    for _key, lines in content.header._folded:        # field groups in order of occurrence
+        vals = [data[s:e] for s, e, _ in lines]
+        written = vals[0][:vals[0].find(b':')]            # the name as written
+        got = list(ParsedHeaders._parse([vals]))          # [] = value the registry refuses
+        if not got:
+            continue
+        headers.append((written, str(got[0])))
+        check.setdefault(written.strip().lower(), []).append(str(got[0]))
+        if rawdate is None and written.strip().lower() == b'date':
+            rawdate = SMTP.header_source_parse(
+                [ln.decode('ascii', 'surrogateescape') for ln in vals])[1]
+    # the per-field reconstruction is what the header map holds
+    via_map = {bytes(n): [str(v) for v in parsed[n]] for n in parsed}
+    via_map = {n: v for n, v in via_map.items() if v}
+    if via_map != check:
+        raise ValueError(f'header oracle mismatch: {via_map!r} vs {check!r}')
     env = BaseLoadedMessage._get_envelope_structure(content)
     sdate = None
     if env.date and env.date.datetime is not None:
@@ -734,6 +757,7 @@ def oracle_record(raw_rec: dict) -> dict:
              else (bytes(p.header), False, b'') for p in content.walk()]
     return {'uid': raw_rec['uid'], 'seq': raw_rec['seq'], 'flags': list(raw_rec['flags']),
             'size': raw_rec['size'], 'idate': idate_of(raw_rec['internaldate']), 'sdate': sdate,
+            'rawdate': rawdate,
             'headers': headers, 'parts': parts, 'emailid': raw_rec.get('emailid', b''),
             'threadid': raw_rec.get('threadid', b''), 'reparsed_len': len(content)}
 
